@@ -1,5 +1,6 @@
 import CentrifugeVerif.DriverLib
 import CentrifugeVerif.Model.MapHub
+import CentrifugeVerif.Model.MapExpiry
 /-!
 Line-protocol driver logic shared by `Drivers/C20.lean`, `C21.lean`, `C24.lean` (same protocol, same model).
 
@@ -15,16 +16,31 @@ run at every multiple of 1000 ms that is crossed, before the op):
 * `stream ch= dt= since=-|<off>:<ep> lim=<int> rev=0|1`
 * `adv dt=`
 * `pages ch= dt= lim=<int> asc=0|1`   (the whole pagination loop, cursors taken from the replies)
+* `hook ch= key=<hex> kind=in|co dt= | <pub/rm/clear line>`   one-shot reaction to the sweeper's removal broadcast of
+  `(ch, key)`: `in` = issued inside that HandlePublication call, `co` = issued concurrently while it is in flight
+  (a `sw` item `hk:<ch>:<result>` reports the reaction's result)
 
 Output: `sw=<broadcasts of the sweeps> <result> bc=<broadcasts of the op>`.
 -/
 namespace CentrifugeVerif.MapHubDriver
 open CentrifugeVerif DriverLib MapHub MapPage
 
+/-- a one-shot reaction registered by a `hook` line: when the sweeper broadcasts the expiry removal of
+`(ch, key)`, the operation `cmd ws` is issued from inside that `HandlePublication` call (`conc = false`: on the
+sweeper's goroutine, i.e. between two phase-2 regions) or from another goroutine while the call is in flight
+(`conc = true`; the publish lock of the channel orders it after the removal's dispatch). -/
+structure Hook where
+  ch : Nat
+  key : Key
+  conc : Bool
+  cmd : String
+  ws : List String
+
 structure DState where
   cfgs : List (Nat × RawCfg) := []
   hub : Hub := Hub.init
   now : Nat := 0
+  hooks : List Hook := []
 
 def cfgOf (cfgs : List (Nat × RawCfg)) (ch : Nat) : RawCfg :=
   match aget cfgs ch with
@@ -123,17 +139,6 @@ def parseCfg (w : String) : Option (Nat × RawCfg) :=
 def parseBool (s : Option String) : Option Bool :=
   match s with | some "0" => some false | some "1" => some true | _ => none
 
-/-- advance the clock to `now + dt`, running the sweeps that fall in between. -/
-def advance (st : DState) (dt : Nat) : DState × List Bcast × Bool :=
-  let target := st.now + dt
-  let first := st.now / 1000 + 1
-  let n := target / 1000 + 1 - first
-  let r := (List.range n).foldl (fun (acc : Hub × List Bcast × Bool) j =>
-      let t := (first + j) * 1000
-      let s := sweep (cfgOf st.cfgs) acc.1 t
-      (s.1, acc.2.1 ++ s.2.bcs, acc.2.2 || s.2.res == .stuck)) (st.hub, [], false)
-  ({ st with hub := r.1, now := target }, r.2.1, r.2.2)
-
 def parseOp (h : Hub) (cmd : String) (ws : List String) : Option MOp := do
   let ch ← kvNat ws "ch"
   match cmd with
@@ -162,6 +167,73 @@ def parseOp (h : Hub) (cmd : String) (ws : List String) : Option MOp := do
     let since ← (kv ws "since").bind (parsePos h)
     some (.readStream ch { since := since, limit := ← kvInt ws "lim", reverse := ← parseBool (kv ws "rev") })
   | _ => none
+
+/-- find and remove the first hook for `(ch, key)`. -/
+def takeHook (ch : Nat) (key : Key) : List Hook → Option (Hook × List Hook)
+  | [] => none
+  | hk :: rest =>
+    if hk.ch = ch ∧ hk.key = key then some (hk, rest)
+    else (takeHook ch key rest).map (fun r => (r.1, hk :: r.2))
+
+def semis (s : String) : String := String.ofList (s.toList.map (fun c => if c == ' ' then ';' else c))
+
+/-- the phase-2 part of one sweep as a label sequence of the `MapExpiry` transition system: one `.phase2`
+label per pending event; when the removal just logged has a hook, the hooked operation follows as a
+`.pub` / `.rm` / `.clear` label before the next `.phase2` (exactly the window the real sweeper leaves open:
+its per-event lock regions).  Items: broadcasts in log order, `hk:<ch>:<result>` after a reaction. -/
+def phase2Hooked (cfg : Nat → RawCfg) : Nat → MapExpiry.Sys → List Hook → List String → MapExpiry.Sys × List Hook × List String
+  | 0, s, hooks, items => (s, hooks, items)
+  | fuel + 1, s, hooks, items =>
+    match s.step cfg .phase2 with
+    | none => (s, hooks, items)
+    | some s1 =>
+      let newBcs := s1.log.drop s.log.length
+      let items := items ++ newBcs.map showBc
+      match newBcs with
+      | [b] =>
+        match (if b.pub.removed then takeHook b.ch b.pub.key hooks else none) with
+        | none => phase2Hooked cfg fuel s1 hooks items
+        | some (hk, hooks') =>
+          match parseOp s1.hub hk.cmd hk.ws with
+          | none => phase2Hooked cfg fuel s1 hooks' (items ++ ["hk:bad-op"])
+          | some op =>
+            let lbl : Option MapExpiry.Label := match op with
+              | .publish ch key o => some (.pub ch key o)
+              | .remove ch key o => some (.rm ch key o)
+              | .clear ch => some (.clear ch)
+              | _ => none
+            match lbl with
+            | none => phase2Hooked cfg fuel s1 hooks' (items ++ ["hk:bad-op"])
+            | some l =>
+              match s1.step cfg l with
+              | none => phase2Hooked cfg fuel s1 hooks' (items ++ ["hk:bad-op"])
+              | some s2 =>
+                let res := (step cfg s1.hub s1.now op).2.res
+                let opch := match op with
+                  | .publish ch _ _ => ch | .remove ch _ _ => ch | .clear ch => ch | _ => 0
+                let items := items ++ (s2.log.drop s1.log.length).map showBc ++ [s!"hk:{opch}:{semis (showRes res)}"]
+                phase2Hooked cfg fuel s2 hooks' items
+      | _ => phase2Hooked cfg fuel s1 hooks items
+
+/-- one `expireKeysIteration` at time `t` as labels `phase1; phase2*` (with hooked operations in between). -/
+def sweepHooked (cfg : Nat → RawCfg) (h : Hub) (t : Nat) (hooks : List Hook) : Hub × List Hook × List String × Bool :=
+  let s0 : MapExpiry.Sys := ⟨h, t, [], t, []⟩
+  match s0.step cfg .phase1 with
+  | none => (h, hooks, [], true)
+  | some s1 =>
+    let r := phase2Hooked cfg s1.pending.length s1 hooks []
+    (r.1.hub, r.2.1, r.2.2, false)
+
+/-- advance the clock to `now + dt`, running the sweeps that fall in between. -/
+def advance (st : DState) (dt : Nat) : DState × List String × Bool :=
+  let target := st.now + dt
+  let first := st.now / 1000 + 1
+  let n := target / 1000 + 1 - first
+  let r := (List.range n).foldl (fun (acc : Hub × List Hook × List String × Bool) j =>
+      let t := (first + j) * 1000
+      let s := sweepHooked (cfgOf st.cfgs) acc.1 t acc.2.1
+      (s.1, s.2.1, acc.2.2.1 ++ s.2.2.1, acc.2.2.2 || s.2.2.2)) (st.hub, st.hooks, [], false)
+  ({ st with hub := r.1, hooks := r.2.1, now := target }, r.2.2.1, r.2.2.2)
 
 /-- the client's pagination loop (`pages` op): from the empty cursor while the returned cursor is
 non-empty, at most 64 requests; the cursor goes through the string encoding and back. -/
@@ -195,8 +267,15 @@ def stepLine (st : DState) (line : String) : DState × String :=
     | some dt =>
       let a := advance st dt
       let st1 := a.1
-      let sw := if a.2.2 then "STUCK" else showBcs a.2.1
+      let sw := if a.2.2 then "STUCK" else (if a.2.1.isEmpty then "-" else joinWith "," a.2.1)
       if cmd == "adv" then (st1, s!"sw={sw} ok bc=-")
+      else if cmd == "hook" then
+        -- `hook ch= key= kind=in|co dt= | <op line>`
+        let opWs := (ws.dropWhile (· ≠ "|")).drop 1
+        match kvNat (ws.takeWhile (· ≠ "|")) "ch", (kv ws "key").bind parseKey, kv ws "kind", opWs with
+        | some ch, some key, some kind, ocmd :: ows =>
+          ({ st1 with hooks := st1.hooks ++ [⟨ch, key, kind == "co", ocmd, ows⟩] }, s!"sw={sw} ok bc=-")
+        | _, _, _, _ => (st, "bad-op")
       else if cmd == "pages" then
         match kvNat ws "ch", kvInt ws "lim", parseBool (kv ws "asc") with
         | some ch, some lim, some asc =>
